@@ -19,7 +19,9 @@ EXTENDS Naturals, Sequences, TLC, Json
 CONSTANTS Tokens,          \* chunk alphabet
           MaxLen,          \* chunks per content
           MaxCalcs,        \* calculations per history
-          ResetOnFailure   \* BOOLEAN
+          ResetOnFailure,  \* BOOLEAN
+          AsyncCopy        \* BOOLEAN: FALSE = as coded (the copy runs in the calling goroutine: when the call returns nothing
+                           \* is in flight); TRUE = a copy that goes on in the background after a cancelled call has returned
 
 VARIABLES absorbed,  \* what the wrapped hash has absorbed since its last reset
           hist,      \* calculations so far: [content, outcome, k, digestIsContent]
@@ -41,18 +43,22 @@ CalcOk(c, eof) ==
     LET digest == absorbed \o c IN
     /\ good' = (good /\ digest = c)
     /\ absorbed' = <<>>                                  \* Sum, then Reset
-    /\ hist' = Append(hist, [content |-> c, outcome |-> "ok", k |-> Len(c), same |-> (digest = c), eof |-> eof])
+    /\ hist' = Append(hist, [content |-> c, outcome |-> "ok", k |-> Len(c), same |-> (digest = c), eof |-> eof, late |-> FALSE])
 
-\* the reader fails / the context is cancelled after k chunks were absorbed
-CalcAbort(c, how, k) ==
-    /\ absorbed' = IF ResetOnFailure THEN <<>> ELSE absorbed \o Prefix(c, k)
+\* the reader fails / the context is cancelled after k chunks were absorbed.  late: the cancellation arrives while the
+\* reader is inside Read, and the reader hands its chunk over only afterwards - a synchronous copy has it refused (or
+\* absorbed and reset) before the call returns; a background copy writes it into the hash AFTER the reset
+CalcAbort(c, how, k, late) ==
+    /\ absorbed' = IF ~ResetOnFailure THEN absorbed \o Prefix(c, k)
+                   ELSE IF late /\ AsyncCopy /\ k < Len(c) THEN <<c[k + 1]>> ELSE <<>>
     /\ good' = good
-    /\ hist' = Append(hist, [content |-> c, outcome |-> how, k |-> k, same |-> TRUE, eof |-> "separate"])
+    /\ hist' = Append(hist, [content |-> c, outcome |-> how, k |-> k, same |-> TRUE, eof |-> "separate", late |-> late])
 
 Next == /\ Len(hist) < MaxCalcs
         /\ \E c \in Contents :
              \/ \E eof \in EofModes : CalcOk(c, eof)
-             \/ \E how \in {"fail", "cancel"}, k \in 0..Len(c) : CalcAbort(c, how, k)
+             \/ \E how \in {"fail", "cancel"}, k \in 0..Len(c) : CalcAbort(c, how, k, FALSE)
+             \/ \E k \in 0..(Len(c) - 1) : CalcAbort(c, "cancel", k, TRUE)
 
 Spec == Init /\ [][Next]_vars
 
